@@ -55,7 +55,27 @@ var c10Polluters = []string{
 	`BEGIN { n = 2.5; n.round += 1; n.ceil = "x" }`,
 }
 
+// programs that fail half-way (inside printf, inside a method, at the recursion limit) or use
+// every interpreter facility: they must not leave anything behind either, and are NOT covered by
+// any deviation
+var c10Disturbers = []string{
+	`BEGIN { printf("Mark %5s earns %s", "x") }`,
+	`BEGIN { printf("abc %s %d", "y") }`,
+	`BEGIN { printf("%s %s %s", "only") }`,
+	`function r(n) { return r(n + 1) } BEGIN { r(0) }`,
+	`function w() { return 1 } BEGIN { for (i = 0; i < 50; i++) { w(); v = match (i) { z => z } } print v }`,
+	`BEGIN { a = [1, [2]]; print a.contains(2) }`,
+	`BEGIN { x = match (1) { 1 => w0() } } function w0() { return 1 / 0 }`,
+	`{ next } END { print "e" }`,
+	`BEGIN { exit } END { print "never" }`,
+}
+
 var c10Victims = []string{
+	// sensitive to the exact frame depth available
+	`function f(n) { if (n > 0) { return f(n - 1) } return "bottom" } BEGIN { print f(4090) }`,
+	`function g(n) { print n; return g(n + 1) } BEGIN { g(0) }`,
+	`function h(n) { return match (n) { 0 => "done", z => h(z - 1) } } BEGIN { print h(2040) }`,
+	`BEGIN { printf("%s earns %f\n", "Kathy", 40); printf("%5s|%-5s|%05f\n", "a", "b", 7) }`,
 	`BEGIN { x = 2.5; print x.floor(), x.ceil(), x.round() }`,
 	`BEGIN { a = [3, 1, 2]; print a.length(), a.sort(), a.contains(2); a.push(9); print a.pop(), a.popfirst(), a }`,
 	`BEGIN { s = "a,b"; print s.upper(), s.lower(), s.split(","), s.length() }`,
@@ -71,7 +91,7 @@ func c10Keys(c *Ctx, n int) []procKey {
 		methods := strings.Contains(prog, "(") && strings.Contains(prog, ".")
 		keys = append(keys, procKey{id: fmt.Sprintf("k%d", len(keys)), prog: prog, sels: sels, input: input, pollutes: pollutes, methods: methods})
 	}
-	objDocs := []string{`{"b":1,"a":2,"c":3}`, `[{"b":1,"a":2},{"y":[1,2],"x":{"q":1,"p":2}}]`, `{"a":"k1","b":"k2","c":{"n":1,"m":2}}`, `{"k 2":1,"a":2}`}
+	objDocs := []string{`{"1":1,"1.0":2,"01":3,"1e0":4}`, `{"2":1,"10":2,"1a":3}`, `{"nan":1,"9":2,"10":3,"-1":4}`, `{"b":1,"a":2,"c":3}`, `[{"b":1,"a":2},{"y":[1,2],"x":{"q":1,"p":2}}]`, `{"a":"k1","b":"k2","c":{"n":1,"m":2}}`, `{"k 2":1,"a":2}`}
 	for _, p := range c10ObjectPrograms {
 		for _, d := range objDocs {
 			add(p, nil, d, false)
@@ -83,6 +103,9 @@ func c10Keys(c *Ctx, n int) []procKey {
 	}
 	for _, p := range c10Victims {
 		add(p, nil, `[[1,2],"abc"]`, false)
+	}
+	for _, p := range c10Disturbers {
+		add(p, nil, `[1,2]`, false)
 	}
 	g := &gen{r: rng, strict: true}
 	for len(keys) < n {
